@@ -129,7 +129,6 @@ def schemas : List (String × Schema) := [
     [.attr "" "action" true, .attr "" "jid" true, .attr "" "name" true, .attr "" "node" false, .attr "" "sessionid" true]⟩),
   ("upload.File", ⟨⟨"urn:xmpp:http:upload:0", "request"⟩,
     [.attr "" "content-type" true, .attr "" "filename" false, .attr "" "size" false]⟩),
-  ("delay.Delay", ⟨⟨"urn:xmpp:delay", "delay"⟩, [.attr "" "from" true, .attr "" "stamp" false]⟩),
   ("xtime.Time", ⟨⟨"urn:xmpp:time", "time"⟩, [.child "tzo" false, .child "utc" false]⟩)
 ]
 
